@@ -22,7 +22,8 @@ type (
 	floatValue float64
 )
 
-var floatTypeDefault = &FloatType{-math.MaxFloat64, math.MaxFloat64}
+// The default Float type is unbounded: it reaches from -Inf to +Inf and is the only Float type that has NaN as an instance
+var floatTypeDefault = &FloatType{math.Inf(-1), math.Inf(1)}
 var floatType32 = &FloatType{-math.MaxFloat32, math.MaxFloat32}
 
 var FloatMetaType px.ObjectType
@@ -66,7 +67,7 @@ func DefaultFloatType() *FloatType {
 }
 
 func NewFloatType(min float64, max float64) *FloatType {
-	if min == -math.MaxFloat64 && max == math.MaxFloat64 {
+	if math.IsInf(min, -1) && math.IsInf(max, 1) {
 		return DefaultFloatType()
 	}
 	if min > max {
@@ -85,19 +86,19 @@ func newFloatType2(limits ...px.Value) *FloatType {
 		if _, ok = limits[0].(*DefaultValue); !ok {
 			panic(illegalArgumentType(`Float[]`, 0, `Float`, limits[0]))
 		}
-		min = -math.MaxFloat64
+		min = math.Inf(-1)
 	}
 
 	var max float64
 	switch argc {
 	case 1:
-		max = math.MaxFloat64
+		max = math.Inf(1)
 	case 2:
 		if max, ok = toFloat(limits[1]); !ok {
 			if _, ok = limits[1].(*DefaultValue); !ok {
 				panic(illegalArgumentType(`Float[]`, 1, `Float`, limits[1]))
 			}
-			max = math.MaxFloat64
+			max = math.Inf(1)
 		}
 	default:
 		panic(illegalArgumentCount(`Float`, `0 - 2`, len(limits)))
@@ -128,13 +129,13 @@ func (t *FloatType) Get(key string) (px.Value, bool) {
 	switch key {
 	case `from`:
 		v := px.Undef
-		if t.min != -math.MaxFloat64 {
+		if !math.IsInf(t.min, -1) {
 			v = floatValue(t.min)
 		}
 		return v, true
 	case `to`:
 		v := px.Undef
-		if t.max != math.MaxFloat64 {
+		if !math.IsInf(t.max, 1) {
 			v = floatValue(t.max)
 		}
 		return v, true
@@ -174,13 +175,13 @@ func (t *FloatType) Name() string {
 }
 
 func (t *FloatType) Parameters() []px.Value {
-	if t.min == -math.MaxFloat64 {
-		if t.max == math.MaxFloat64 {
+	if math.IsInf(t.min, -1) {
+		if math.IsInf(t.max, 1) {
 			return px.EmptyValues
 		}
 		return []px.Value{WrapDefault(), floatValue(t.max)}
 	}
-	if t.max == math.MaxFloat64 {
+	if math.IsInf(t.max, 1) {
 		return []px.Value{floatValue(t.min)}
 	}
 	return []px.Value{floatValue(t.min), floatValue(t.max)}
@@ -203,7 +204,7 @@ func (t *FloatType) String() string {
 }
 
 func (t *FloatType) IsUnbounded() bool {
-	return t.min == -math.MaxFloat64 && t.max == math.MaxFloat64
+	return math.IsInf(t.min, -1) && math.IsInf(t.max, 1)
 }
 
 func (t *FloatType) ToString(b io.Writer, s px.FormatContext, g px.RDetect) {
